@@ -20,6 +20,20 @@ def _tp(text):
     return TPP(assumed_time_zone=(0, 0)).parse(text)
 
 
+_SHARED = {}
+
+
+def _shared_parsers():
+    """Long-lived parser / dumper / operator objects, created once per process and reused across mode switches."""
+    if not _SHARED:
+        D, TPP, DP, TRP = _lib()
+        from metomi.isodatetime.dumpers import TimePointDumper
+        _SHARED["tp"] = TPP(assumed_time_zone=(0, 0))
+        _SHARED["rec"] = TRP(_SHARED["tp"], DP())
+        _SHARED["dumper"] = TimePointDumper()
+    return _SHARED
+
+
 def _wk(p):
     return [p.year, p.week_of_year, p.day_of_week]
 
@@ -74,6 +88,10 @@ def _probes():
         ("nominal_lengths", lambda: [list(D.Duration(years=1).get_days_and_seconds()), D.Duration(years=1, months=1).get_seconds(),
                                      D.Duration(years=1) > D.Duration(days=361), D.Duration(years=1) <= D.Duration(days=360),
                                      D.Duration(years=1) < D.Duration(days=366)]),
+        ("shared_parser", lambda: [_err(lambda: str(_shared_parsers()["tp"].parse("2001-02-30T06:00:00Z"))),
+                                   _err(lambda: str(_shared_parsers()["tp"].parse("2001-366T00Z"))),
+                                   _err(lambda: [str(p) for p in _shared_parsers()["rec"].parse("R3/2001-02-28T00Z/P1D")]),
+                                   _shared_parsers()["dumper"].dump(_shared_parsers()["tp"].parse("2001-03-01T00Z"), "CCYY-DDD")]),
         ("cli_offset", lambda: _cli(["2001-02-28T00Z", "--offset", "P1D", "--calendar", CURRENT["cli"]])),
     ]
     return P
